@@ -37,6 +37,12 @@ type walker struct {
 	strs     []*types.Var  // string params in order
 	points   *types.Var
 	ancestor *types.Var
+	// shared recursion: f is a thin wrapper that calls rec (the self-recursive
+	// function) with a subject-building function value and, possibly, the
+	// includeDeleted flag; nil when f recurses itself
+	rec      *kit.Func
+	recCall  *ast.CallExpr // f's call of rec
+	otherIDs []*types.Var  // f's id parameters that appear in the subject (in token order)
 }
 
 // isBusSend: a call that publishes on the bus (nc.Publish*, or a client.* helper taking the connection).
@@ -112,6 +118,119 @@ func findWalkers(c *kit.Ctx) []*walker {
 			}
 		}
 		out = append(out, w)
+	}
+	out = append(out, findSharedWalkers(c)...)
+	return out
+}
+
+// findSharedWalkers: the two walkers merged behind one recursive helper that takes
+// the subject as a function value (`rebroadcast(up, includeDeleted, subjectFor,
+// points)`); each non-recursive caller that hands it a closure building an
+// "up.…" subject is one walker.
+func findSharedWalkers(c *kit.Ctx) []*walker {
+	var out []*walker
+	for _, rec := range c.P.Funcs("store") {
+		if rec.Decl == nil || rec.Body == nil {
+			continue
+		}
+		info := rec.Info()
+		self := false
+		for _, call := range rec.AllCalls(false) {
+			if rec.CalleeFunc(call) == rec {
+				self = true
+			}
+		}
+		if !self {
+			continue
+		}
+		// the send whose subject is the result of calling a func-typed parameter
+		var pub *ast.CallExpr
+		var subjCall *ast.CallExpr
+		var sp *types.Var
+		for _, call := range rec.AllCalls(false) {
+			if !isBusSend(info, call) {
+				continue
+			}
+			for _, a := range call.Args {
+				sc, ok := ast.Unparen(a).(*ast.CallExpr)
+				if !ok || len(sc.Args) != 1 {
+					continue
+				}
+				for _, p := range rec.Params() {
+					if _, isSig := p.Type().Underlying().(*types.Signature); isSig && kit.ObjOf(info, sc.Fun) == types.Object(p) {
+						pub, subjCall, sp = call, sc, p
+					}
+				}
+			}
+		}
+		if pub == nil {
+			continue
+		}
+		spIdx := -1
+		for i, p := range rec.Params() {
+			if p == sp {
+				spIdx = i
+			}
+		}
+		for _, g := range c.P.Funcs("store") {
+			if g.Decl == nil || g.Body == nil || g == rec {
+				continue
+			}
+			for _, call := range g.AllCalls(false) {
+				if g.CalleeFunc(call) != rec || spIdx >= len(call.Args) {
+					continue
+				}
+				// the closure handed over
+				var lit *kit.Func
+				if fl, ok := ast.Unparen(call.Args[spIdx]).(*ast.FuncLit); ok {
+					lit = c.P.LitFunc("store", fl)
+				} else if v, ok := kit.ObjOf(g.Info(), call.Args[spIdx]).(*types.Var); ok {
+					lit = g.LocalClosure(v)
+				}
+				if lit == nil || lit.Body == nil || len(lit.Params()) != 1 {
+					continue
+				}
+				rets := returnsOf(lit)
+				if len(rets) != 1 || len(rets[0]) != 1 {
+					continue
+				}
+				// the closure's parameter stands for what rec passes: its own ancestor parameter
+				argObj := kit.ObjOf(info, subjCall.Args[0])
+				if argObj == nil {
+					continue
+				}
+				env := map[types.Object][]subjPart{lit.Params()[0]: {{obj: argObj}}}
+				parts, ok := subjectParts(lit, rets[0][0], env, 0)
+				if !ok {
+					continue
+				}
+				toks, ok := subjectLayout(parts)
+				if !ok || len(toks) == 0 || toks[0].obj != nil || toks[0].lit != "up" {
+					continue
+				}
+				w := &walker{f: g, rec: rec, recCall: call, sprintf: rets[0][0], pubCall: pub, tokens: toks}
+				for _, t := range toks[1:] {
+					if t.obj != nil {
+						w.verbs++
+						if t.obj != argObj {
+							if v, ok := t.obj.(*types.Var); ok {
+								w.otherIDs = append(w.otherIDs, v)
+							}
+						}
+					}
+				}
+				for _, p := range rec.Params() {
+					if b, ok := p.Type().Underlying().(*types.Basic); ok && b.Kind() == types.String {
+						w.strs = append(w.strs, p)
+					} else if kit.IsNamedType(p.Type(), dataPkg, "Points") {
+						w.points = p
+					} else if sl, ok := p.Type().Underlying().(*types.Slice); ok && kit.IsNamedType(sl.Elem(), dataPkg, "Point") {
+						w.points = p
+					}
+				}
+				out = append(out, w)
+			}
+		}
 	}
 	return out
 }
@@ -334,18 +453,24 @@ func directlyContains(f *kit.Func, target *ast.CallExpr) bool {
 }
 
 func c06WalkerShape(c *kit.Ctx, m *storeModel, r2 *kit.Rule, w *walker, upf *kit.Func) {
+	wrapper := w.f
 	f := w.f
+	if w.rec != nil {
+		// the recursion lives in the shared helper; obligations stay keyed by the wrapper
+		f = w.rec
+		c.Analysed(w.rec)
+	}
 	info := f.Info()
 	kind := "node-points"
 	wantDel := false
 	if w.verbs == 3 {
 		kind, wantDel = "edge-points", true
 	}
-	oPub := r2.Ob(f, w.sprintf, kind+" walker: publish", "publishes Sprintf(up-format, ancestor, remaining ids…) with the points parameter before any return")
-	oUp := r2.Ob(f, w.sprintf, kind+" walker: parents", "parents of the ancestor come from the parent lookup with includeDeleted="+strconv.FormatBool(wantDel))
-	oRec := r2.Ob(f, w.sprintf, kind+" walker: recursion", "every parent is visited: one self-call per loop iteration with (parent, remaining parameters unchanged)")
+	oPub := r2.Ob(wrapper, w.sprintf, kind+" walker: publish", "publishes Sprintf(up-format, ancestor, remaining ids…) with the points parameter before any return")
+	oUp := r2.Ob(wrapper, w.sprintf, kind+" walker: parents", "parents of the ancestor come from the parent lookup with includeDeleted="+strconv.FormatBool(wantDel))
+	oRec := r2.Ob(wrapper, w.sprintf, kind+" walker: recursion", "every parent is visited: one self-call per loop iteration with (parent, remaining parameters unchanged)")
 
-	if w.points == nil || len(w.strs) != w.verbs {
+	if w.points == nil || (w.rec == nil && len(w.strs) != w.verbs) || (w.rec != nil && len(w.otherIDs)+1 != w.verbs) {
 		oPub.Undecided("walker has %d string parameters for %d subject tokens, points parameter found=%v", len(w.strs), w.verbs, w.points != nil)
 		return
 	}
@@ -369,7 +494,23 @@ func c06WalkerShape(c *kit.Ctx, m *storeModel, r2 *kit.Rule, w *walker, upf *kit
 		oUp.Violation("parent lookup is called with `%s`, not with a parameter of the walker", f.Str(upCall.Args[0]))
 		return
 	}
-	if v, ok := info.Types[upCall.Args[1]]; !ok || v.Value == nil || v.Value.Kind() != constant.Bool {
+	// includeDeleted handed through from the wrapper: its value is the wrapper's argument
+	inclExpr, inclInfo, inclF := upCall.Args[1], info, f
+	if w.rec != nil {
+		for i, p := range f.Params() {
+			if kit.ObjOf(info, upCall.Args[1]) == types.Object(p) && i < len(w.recCall.Args) {
+				inclExpr, inclInfo, inclF = w.recCall.Args[i], wrapper.Info(), wrapper
+			}
+		}
+	}
+	if v, ok := inclInfo.Types[inclExpr]; ok && v.Value != nil && v.Value.Kind() == constant.Bool && inclF != f {
+		if constant.BoolVal(v.Value) != wantDel {
+			oUp.Violation("%s walker hands includeDeleted=%v to %s: %s", kind, constant.BoolVal(v.Value), f.Name,
+				map[bool]string{true: "node points would be announced above deleted edges", false: "a deletion would not be announced above the deleted edge"}[constant.BoolVal(v.Value)])
+		} else {
+			oUp.OK("%s with includeDeleted=%v from %s", f.Str(upCall), wantDel, wrapper.Name)
+		}
+	} else if v, ok := info.Types[upCall.Args[1]]; !ok || v.Value == nil || v.Value.Kind() != constant.Bool {
 		// an argument that depends on the walker's own parameters changes along the
 		// walk (the first hop passes other values than later hops): for some
 		// position it differs from the required constant
@@ -401,6 +542,29 @@ func c06WalkerShape(c *kit.Ctx, m *storeModel, r2 *kit.Rule, w *walker, upf *kit
 	for _, p := range w.strs {
 		if p != w.ancestor {
 			exp = append(exp, p)
+		}
+	}
+	if w.rec != nil {
+		// the other ids are the wrapper's own id parameters, in the wrapper's order, minus its start
+		exp = []*types.Var{w.ancestor}
+		var startObj types.Object
+		for i, p := range f.Params() {
+			if p == w.ancestor && i < len(w.recCall.Args) {
+				startObj = kit.ObjOf(wrapper.Info(), w.recCall.Args[i])
+			}
+		}
+		first := true
+		for _, p := range wrapper.Params() {
+			if b, ok := p.Type().Underlying().(*types.Basic); ok && b.Kind() == types.String {
+				if first && types.Object(p) != startObj {
+					oPub.Violation("%s starts the walk at `%v`, expected its first id parameter `%s`", wrapper.Name, startObj, p.Name())
+					return
+				}
+				if !first {
+					exp = append(exp, p)
+				}
+				first = false
+			}
 		}
 	}
 	ids := w.tokens[1:]
